@@ -323,7 +323,10 @@ def gen_tbl_op(rng, spec):
     elif how == "limits":
         cols = None
     lim = [rng.randint(0, 3), rng.randint(0, 3)] if (how == "limits" or rng.random() < 0.15) else None
-    return {"op": "tbl_refmt", "cols": cols, "lim": lim, "via_prop": rng.random() < 0.5}
+    op = {"op": "tbl_refmt", "cols": cols, "lim": lim, "via_prop": rng.random() < 0.5}
+    if how == "limits" and rng.random() < 0.5:
+        op["via_fmt_obj"] = True    # a pager that only holds the table's format object changes the limits in place
+    return op
 
 
 PP_VALUES = [
@@ -1105,7 +1108,10 @@ def _do_op(w, trace, op, n, k, log, color):
         ctx = (len(w.specs), {"init": {}, "no_color": False, "batches": []},
                {"via": "explicit", "no_color": True, "palette": None})
         w.specs.append(new)
-        if k == "tbl_refmt":
+        if k == "tbl_refmt" and op.get("via_fmt_obj") and not op.get("cols") and op.get("lim"):
+            w.guarded("table.fmt.set_limits", ctx, built.obj.fmt.set_limits, tuple(op["lim"]))
+            w.stats["limits_via_fmt_obj"] = w.stats.get("limits_via_fmt_obj", 0) + 1
+        elif k == "tbl_refmt":
             fs = tbl_fmt_string(op)
             if op.get("via_prop"):
                 w.guarded("table.fmt = ...", ctx, setattr, built.obj, "fmt", fs)
